@@ -310,18 +310,51 @@ def condition_parent(vm, name):
     return vm.alloc(vm.loader.cls(mod, name), {"_id_": 10}, tag="parent-" + name)
 
 
+def descriptor_parent_kinds():
+    """the whole condition of a (sub-)query sits directly below the query's object descriptor: one harness per concrete
+    QueryObjectDescriptor class, read off the real hierarchy"""
+    from pyvc.framework import get_loader
+    from pyvc.vm import VM
+    from pyvc.ctx import Ctx, Stats
+    loader = get_loader()
+    vm = VM(loader, Ctx([], Stats()), Spec())
+    QOD = loader.cls(SYM, "QueryObjectDescriptor")
+    return sorted(c.name for c in loader.module(SYM).classes.values() if vm.is_subclass(c, QOD) is True and c is not QOD)
+
+
+def evaluating_parent(vm, role, below, node_holder):
+    """the node that evaluates the node under test.  operand: a comparison; selected: an object descriptor whose condition is
+    ANOTHER node (the node under test is a selected expression); condition: a logical operator, or an object descriptor whose
+    `_child_` is the node under test (node_holder is filled by the caller once the node exists).  The query may itself be
+    nested in another query: nothing about the outer tree is given."""
+    if role == "operand":
+        return vm.alloc(vm.loader.cls(SYM, "Comparator"), {"_id_": 10}, tag="parent")
+    if role == "selected":
+        other = vm.alloc(vm.loader.cls(SYM, "SymbolicExpression"), {"_id_": 2}, tag="the-condition")
+        return vm.alloc(vm.loader.cls(SYM, below), {"_id_": 10, "_child_": other}, tag="parent-" + below)
+    if below in descriptor_parent_kinds():
+        par = vm.alloc(vm.loader.cls(SYM, below), {"_id_": 10, "_child_": None}, tag="parent-" + below)
+        node_holder.append(par)
+        return par
+    return condition_parent(vm, below)
+
+
 def variable_harness(role, below="AND"):
-    prefix = f"Variable._evaluate__[{role}]"
+    given_role, role = role, ("operand" if role == "selected" else role)      # a selected expression is a value, like an operand
+    prefix = f"Variable._evaluate__[{given_role}]"
 
     def run(vm):
         ctx = vm.ctx
         world = EqlWorld(vm)
         world.known_ids.add(20)
         dom = DomainModel(world)
-        parent = vm.alloc(vm.loader.cls(SYM, "Comparator"), {"_id_": 10}, tag="parent") if role == "operand" else condition_parent(vm, below)
+        holder = []
+        parent = evaluating_parent(vm, given_role, below, holder)
         other_root = vm.alloc(vm.loader.cls(SYM, "SymbolicExpression"), {"_id_": 1}, tag="conditions-root")
         node = vm.alloc(vm.loader.cls(SYM, "Variable"), {"_id_": 20, "_domain_": dom, "_is_false_": False, "_eval_parent_": None,
                                                         "_conditions_root_": other_root, "_should_be_instantiated_": False}, tag="Variable")
+        for par in holder:
+            par.fields["_child_"] = node
         i = vid(20)
         if role == "operand":
             h = lambda t: z3.BoolVal(True)
@@ -343,14 +376,15 @@ def variable_harness(role, below="AND"):
 
     def tau_hyps(world, t):
         return [z3.Or(bound(world.sigma0, vid(20)), DOM(tval(t, vid(20))))]       # totals assign every variable an element of its domain
-    return Harness(f"value-Variable[{role}]" if role == "operand" else f"value-Variable[{role}<{below}]", run, spec=Spec(), covers=["yielded"], finalize=finish(prefix, True, tau_hyps),
+    return Harness(f"value-Variable[{given_role}]" if given_role == "operand" else f"value-Variable[{given_role}<{below}]", run, spec=Spec(), covers=["yielded"], finalize=finish(prefix, True, tau_hyps),
                    timeout_ms=3000, retry_unknown=False, ematching_only=True)
 
 
 def attribute_harness(role, below="Not", kind="Attribute"):
     """DomainMapping._evaluate__ with the real _apply_mapping_ of Attribute (x.a), Index (x[k]) or Call (x(*args)): the node's
     value is that function of the child's value, in operand and in condition role"""
-    prefix = f"{kind}._evaluate__[{role}]"
+    given_role, role = role, ("operand" if role == "selected" else role)
+    prefix = f"{kind}._evaluate__[{given_role}]"
 
     def run(vm):
         ctx = vm.ctx
@@ -358,12 +392,15 @@ def attribute_harness(role, below="Not", kind="Attribute"):
         child = world.child("child", 21, kind="operand")
         world.known_ids |= {22}
         fa = world.attr_fn("a")
-        parent = vm.alloc(vm.loader.cls(SYM, "Comparator"), {"_id_": 10}, tag="parent") if role == "operand" else condition_parent(vm, below)
+        holder = []
+        parent = evaluating_parent(vm, given_role, below, holder)
         other_root = vm.alloc(vm.loader.cls(SYM, "SymbolicExpression"), {"_id_": 1}, tag="conditions-root")
         extra = {"Attribute": {"_attr_name_": "a", "_owner_class_": None}, "Index": {"_key_": 3},
                  "Call": {"_args_": (5,), "_kwargs_": make_dict([])}, "Call0": {"_args_": (), "_kwargs_": make_dict([])}}[kind]
         node = vm.alloc(vm.loader.cls(SYM, kind.rstrip("0")), {"_child_": child, "_id_": 22, "_is_false_": False,
                                                                "_eval_parent_": None, "_conditions_root_": other_root, **extra}, tag=kind)
+        for par in holder:
+            par.fields["_child_"] = node
         # x[3] / x(5) / x() of a value are (uninterpreted) functions of that value, like x.a
         vm.spec.opaque_hooks["getitem"] = lambda it, v, k: STerm(fa(v.t)) if isinstance(v, STerm) and k == 3 else it.raise_("KeyError", k)
         vm.spec.opaque_hooks["sterm_call"] = lambda it, v, a, k: STerm(fa(v.t)) if (list(a) == list(extra.get("_args_", ("no",))) and not k) else it.raise_("TypeError", "arguments")
@@ -389,7 +426,7 @@ def attribute_harness(role, below="Not", kind="Attribute"):
 
     def tau_hyps(world, t):
         return [tval(t, vid(22)) == world.attr_fn("a")(world.children["child"].val(t))]
-    name = f"value-{kind}[{role}]" if role == "operand" else f"value-{kind}[{role}<{below}]"
+    name = f"value-{kind}[{given_role}]" if given_role == "operand" else f"value-{kind}[{given_role}<{below}]"
     return Harness(name, run, spec=Spec(), covers=["yielded"], finalize=finish(prefix, True, tau_hyps),
                    timeout_ms=3000, retry_unknown=False, ematching_only=True)
 
@@ -628,7 +665,8 @@ def harnesses():
         [not_harness(below=k) for k in condition_parent_kinds()]
     return _stage_a()[:-1] + nested + [comparator_harness("generic"), comparator_harness("eq"), comparator_bound_harness(), variable_harness("operand"), attribute_harness("operand"), attribute_harness("operand", kind="Index"), attribute_harness("operand", kind="Call"),
                               attribute_harness("operand", kind="Call0"), attribute_harness("condition", "AND", kind="Index"), attribute_harness("condition", "Not", kind="Call")] + \
-        [variable_harness("condition", k) for k in condition_parent_kinds()] + [attribute_harness("condition", k) for k in condition_parent_kinds()] + \
+        [variable_harness("condition", k) for k in condition_parent_kinds() + descriptor_parent_kinds()] + [attribute_harness("condition", k) for k in condition_parent_kinds() + descriptor_parent_kinds()] + \
+        [variable_harness("selected", k) for k in descriptor_parent_kinds()] + [attribute_harness("selected", k) for k in descriptor_parent_kinds()] + \
         [hashed_value_harness(), frame_domain_mapping(),
                               descriptor_harness(1), descriptor_harness(2), descriptor_no_condition(), process_result_harness(),
                               optimize_or_harness(), invert_harness()] + _quantifier_pass_through() + [h_canary()]
